@@ -54,17 +54,30 @@ def features(obs, first_jo):
     return f or ['jumpoff']
 
 
-def evaluate(c, m, hist):
+def _cm(x):
+    """A height handed over as a float, back on the exact centimetre grid it was taken from."""
+    try:
+        return Decimal(str(round(float(x), 2)))
+    except Exception:
+        return x
+
+
+def evaluate(c, m, hist, float_heights=False):
     """C03 predicate at a decided state.  Returns violations."""
     obs = hjimpl.observe(c)
     if obs['stage'] not in ('finished', 'won', 'drawn'):
         return []
+    if float_heights:
+        obs['heights'] = [_cm(h) for h in obs['heights']]
+        obs['bests'] = {b: _cm(v) for b, v in obs['bests'].items()}
     if m.first_jo is not None and not any('o' in cell for card in obs['cards'].values() for cell in card[:m.first_jo]):
         return []       # a "jump-off" among athletes without any clearance: the property is silent there
     bad = hjmodel.places_valid(obs['cards'], obs['heights'], m.first_jo, obs['stage'], obs['places'], obs['bests'])
     out = []
     feats = features(obs, m.first_jo)
     case = {'kind': 'history', 'bibs': list(m.order), 'calls': [hjsearch.enc(x) for x in hist]}
+    if float_heights:
+        case['float_heights'] = True
     for clause, detail in bad:
         out.append(V(clause, ['places', clause] + feats, case,
                      {'detail': detail, 'stage': obs['stage'], 'cards': obs['cards'],
@@ -90,13 +103,13 @@ def nontrivial(obs, first_jo):
 
 def examine(case):
     """Replay a stored history on the implementation alone and judge every decided state it passes through."""
-    p = ImplPlayer(0)
+    p = ImplPlayer(0, bool(case.get('float_heights')))
     p.bibs = list(case['bibs'])
     out = []
     for raw in case['calls']:
         if p.call(hjsearch.dec(raw)) and p.c.state in ('finished', 'won', 'drawn'):
             m = M(p.bibs, p.first_jo if p.first_jo is not None and p.first_jo < len(p.c.heights) else None)
-            out.extend(evaluate(p.c, m, p.hist))
+            out.extend(evaluate(p.c, m, p.hist, p.float_heights))
     return out
 
 
@@ -105,9 +118,10 @@ def shrink(bucket):
     sig = bucket['sig']
     calls = list(case['calls'])
     n = len(case['bibs'])
+    extra = {'float_heights': True} if case.get('float_heights') else {}
 
     def fails(cs):
-        return any(v['sig'] == sig for v in examine({'kind': 'history', 'bibs': case['bibs'], 'calls': cs}))
+        return any(v['sig'] == sig for v in examine(dict(extra, kind='history', bibs=case['bibs'], calls=cs)))
     changed = True
     while changed:
         changed = False
@@ -118,7 +132,7 @@ def shrink(bucket):
                 changed = True
                 break
     if len(calls) < len(case['calls']):
-        c2 = {'kind': 'history', 'bibs': case['bibs'], 'calls': calls}
+        c2 = dict(extra, kind='history', bibs=case['bibs'], calls=calls)
         v = [v for v in examine(c2) if v['sig'] == sig][0]
         return {'case': v['case'], 'observed': v['observed']}
     return None
@@ -130,7 +144,9 @@ def shrink(bucket):
 class ImplPlayer(object):
     """Drives the implementation alone (no reference model): C03 judges only the final placings, from the cards."""
 
-    def __init__(self, n):
+    def __init__(self, n, float_heights=False):
+        self.float_heights = float_heights
+        self.last_h = None
         self.c = hjimpl.new_comp()
         self.bibs = BIBS[:n]
         self.hist = []
@@ -140,10 +156,12 @@ class ImplPlayer(object):
             self.call(('add', b))
 
     def call(self, call):
-        r = hjimpl.apply(self.c, call)
+        r = hjimpl.apply(self.c, call, self.float_heights)
         if r[0] != 'ok':
             return False
         self.hist.append(call)
+        if call[0] == 'bar':
+            self.last_h = call[1]         # the exact height, whatever carrier the library was given
         if self.c.state == 'jumpoff' and self.first_jo is None:
             self.first_jo = len(self.c.heights)     # the next bar is the first jump-off height
         return True
@@ -163,8 +181,11 @@ def check_decided(ctx, p):
     if p.c.state in ('finished', 'won', 'drawn'):
         ctx.count()
         m = M(p.bibs, p.first_jo if p.first_jo is not None and p.first_jo < len(p.c.heights) else None)
-        ctx.violations(evaluate(p.c, m, p.hist))
+        ctx.violations(evaluate(p.c, m, p.hist, p.float_heights))
         obs = hjimpl.observe(p.c)
+        if p.float_heights:
+            obs['heights'] = [_cm(h) for h in obs['heights']]
+            obs['bests'] = {b: _cm(v) for b, v in obs['bests'].items()}
         ctx.label('decided-' + obs['stage'])
         if m.first_jo is not None:
             for f in features(obs, m.first_jo):
@@ -193,7 +214,8 @@ def finish_regular(ctx, p):
         live = p.live()
         if not live:
             break
-        h = (p.c.heights[-1] if p.c.heights else Decimal('0.95')) + hjsearch.STEP
+        st = Decimal('0.01') if p.float_heights else hjsearch.STEP
+        h = (p.last_h if p.c.heights else Decimal('0.95')) + st
         p.call(('bar', h))
         for b in live:
             for _ in range(3):
@@ -205,8 +227,9 @@ def jumpoff(ctx, p, draw, max_heights=3):
     rounds = 0
     while p.c.state == 'jumpoff' and rounds < max_heights:
         rounds += 1
-        last = p.c.heights[-1]
-        h = [last + hjsearch.STEP, last, last - hjsearch.STEP, last - 2 * hjsearch.STEP][draw(4)]
+        last = p.last_h
+        st = Decimal('0.01') if p.float_heights else hjsearch.STEP
+        h = [last + st, last, last - st, last - 2 * st][draw(4)]
         if not p.call(('bar', h)):
             break
         live = p.live()
@@ -224,13 +247,19 @@ def random_play(ctx, draw):
     ctx.label('play')
     n = 2 + draw(3)
     hreg = 1 + draw(4)
-    p = ImplPlayer(n)
+    # one play in four hands the bar heights over as floats on 1 cm steps from anywhere between 0.95 and 3.44 (callers
+    # do; 2.01 is not exactly representable): the placing is about the heights, not about their binary representation
+    fh = draw(4) == 0
+    p = ImplPlayer(n, fh)
+    if fh:
+        ctx.label('play-float-heights-1cm')
     bibs = BIBS[:n]
-    h = Decimal('0.95')
+    h = Decimal('0.95') if not fh else Decimal(95 + draw(250)) / 100
+    step = hjsearch.STEP if not fh else Decimal('0.01')
     for i in range(hreg):
         if p.c.state not in ('scheduled', 'started', 'won'):
             break
-        h += hjsearch.STEP * (1 + draw(2))
+        h += step * (1 + draw(2))
         if not p.call(('bar', h)):
             break
         script = 'o' if i == 0 and draw(3) else hjplay.CELLS[draw(len(hjplay.CELLS))]
